@@ -10,6 +10,6 @@ extra() {
   esac
 }
 for d in $V/seeded/*/; do
-  n=$(basename $d); echo "$n $(extra $n)"
+  n=$(basename $d); echo "$n $(extra $n)" | sed "s/ *$//"
 done | xargs -P ${1:-3} -L 1 $V/tools/seed_rerun.sh
 sort $BASE/matrix.txt
